@@ -39,7 +39,10 @@ RULE = ("connected models of four kinds: BN (2-7 nodes quick / 2-8 thorough, con
         "strings / tuples / mixed; exact zeros. Markov networks additionally go through triangulate(H1..H6, inplace or "
         "copy). Per model: calibrate + max_calibrate beliefs, 3-5 queries (1-3 variables, 0-3 hard evidence by state "
         "name with P(e)>0 checked by the oracle, evidence forced onto a non-simplicial variable in ~45 % of the queries, "
-        "0-2 virtual-evidence vectors for BNs, joint in {True, False}) on fresh / calibrated / re-used engines. "
+        "0-2 virtual-evidence vectors for BNs, joint in {True, False}) on fresh / calibrated / re-used engines; plus a "
+        "shared engine that first executes 1-3 other public calls (map_query with pruning evidence, calibrate, "
+        "max_calibrate, query with virtual evidence, plain query, the getters; results ignored) and must then answer "
+        "up to 3 judged posterior queries. "
         "Every 40th case is a disconnected sentinel that must be refused with ValueError. non-trivial: the junction "
         "tree observed in the worker has >= 2 cliques; distinct by digest of the whole spec. No two equal factors on one "
         "scope (that collapse belongs to C14)")
@@ -47,7 +50,8 @@ ASSUMPTIONS = ["brute-force joint (<= 4096 cells quick, <= 16384 thorough) is th
                "float64; beliefs compared up to one positive constant at 1e-9 relative to the largest entry, "
                "posteriors at atol=rtol=1e-9",
                "all factors of a model list the states of a variable in the same order",
-               "virtual evidence is defined for Bayesian networks only (the engine ignores it for other kinds)"]
+               "virtual evidence is defined for Bayesian networks only (the engine ignores it for other kinds)",
+               "shared-engine histories consist of successful calls only; map_query values are not judged (C03)"]
 REACH = [
     "pgmpy.inference.ExactInference:BeliefPropagation._update_beliefs",
     "pgmpy.inference.ExactInference:BeliefPropagation._calibrate_junction_tree",
@@ -454,6 +458,48 @@ def gen_queries(rng, nodes, card, J, hubs, nq, allow_virtual):
     return out
 
 
+PRE_OPS = ["map_query", "map_query", "map_query", "calibrate", "max_calibrate", "getters", "query_virtual",
+           "query_virtual", "query"]
+
+
+def gen_pre(rng, kind, tri, nodes, card, J, pairs, hubs):
+    """1-3 earlier public calls for the shared engine (results ignored): map_query with evidence that prunes /
+    d-separates, calibrate, max_calibrate, the getters, a query with virtual evidence (BN), a plain query.
+    Evidence is a state INDEX with P(e) > 0 under the oracle, so every call is inside the API's domain."""
+    out = []
+    nb = _adj(nodes, pairs)
+    for _ in range(rng.randint(1, 3)):
+        op = rng.choice(PRE_OPS)
+        if op in ("calibrate", "max_calibrate", "getters"):
+            out.append({"op": op})
+            continue
+        if op == "query_virtual":
+            q = None
+            if kind == "bn" and tri is None:
+                for _t in range(12):
+                    c = gen_queries(rng, nodes, card, J, hubs, 1, allow_virtual=True)[0]
+                    if c["virt"]:
+                        q = c
+                        break
+            if q is None:
+                op, q = "query", gen_queries(rng, nodes, card, J, hubs, 1, allow_virtual=False)[0]
+            out.append({"op": op, "q": q["q"], "ev": q["ev"], "virt": q["virt"]})
+            continue
+        q = gen_queries(rng, nodes, card, J, hubs, 1, allow_virtual=False)[0]
+        if op == "map_query" and rng.random() < 0.5:
+            # targeted: one variable, evidence on a neighbour (a parent / child blocks everything behind it)
+            cands = [v for v in nodes if nb[v]]
+            if cands:
+                v = rng.choice(cands)
+                u = rng.choice(sorted(nb[v]))
+                marg = oracle.marginal(nodes, J, [u])
+                ok = [k for k in range(card[u]) if marg[k] > 1e-12]
+                if ok:
+                    q = {"q": [v], "ev": {u: rng.choice(ok)}, "virt": []}
+        out.append({"op": op, "q": q["q"], "ev": q["ev"], "virt": []})
+    return out
+
+
 def _joint(spec):
     """(nodes, normalised joint) of a non-sentinel case."""
     M = spec["model"]
@@ -508,6 +554,9 @@ def gen_case(seed, idx, tier):
     nq = rng.randint(3, 4) if tier == "quick" else rng.randint(3, 5)
     spec["queries"] = gen_queries(rng, nodes, M["card"], J, _hubs(nodes, pairs), nq,
                                   allow_virtual=(kind == "bn" and tri is None))
+    # own stream, so that everything above is the same case it was before the shared-engine workload existed
+    spec["pre"] = gen_pre(gen.rng_for("C02pre", seed, idx), kind, tri, nodes, M["card"], J, pairs,
+                          _hubs(nodes, pairs))
     return spec
 
 
@@ -685,6 +734,8 @@ class _Res:
         self.oks = {}           # label -> number of comparisons that held
         self.ncliques = 0
         self.multi_vars = set()
+        self.pre_raised = None
+        self.shared_ops = None
 
     def bad(self, label, key, what, rel=()):
         self.problems.setdefault(label, []).append((key, what, set(rel)))
@@ -870,6 +921,27 @@ def run_query(res, label, ctx, engine, q, nodes, J, states, joint, eflaw=()):
     return good
 
 
+def do_pre(ctx, engine, p, states):
+    """One earlier public call on the shared engine; the value is not judged (map_query is C03's)."""
+    op = p["op"]
+    if op == "calibrate":
+        return ctx.call(engine.calibrate)
+    if op == "max_calibrate":
+        return ctx.call(engine.max_calibrate)
+    if op == "getters":
+        for g in (engine.get_cliques, engine.get_clique_beliefs, engine.get_sepset_beliefs):
+            r = ctx.call(g)
+            if ctx.failed(r):
+                return r
+        return None
+    ev = {v: states[v][k] for v, k in p["ev"].items()}
+    if op == "map_query":
+        return ctx.call(engine.map_query, list(p["q"]), evidence=dict(ev) or None, show_progress=False)
+    return ctx.call(engine.query, list(p["q"]), evidence=dict(ev) or None,
+                    virtual_evidence=make_virtual(states, p["virt"]) if p["virt"] else None,
+                    joint=True, show_progress=False)
+
+
 def evaluate(spec, ctx, states, nodes, J):
     """Run the whole workload of one case on a model built with `states`; nothing is reported here."""
     from pgmpy.inference import BeliefPropagation
@@ -931,6 +1003,34 @@ def evaluate(spec, ctx, states, nodes, J):
             e = engine(label)
             if e is not None:
                 run_query(res, label, ctx, e, q, nodes, J, states, joint, eflaw[id(e)])
+    # shared engine: 1-3 earlier public calls of any kind (results ignored), then judged posterior queries.
+    # Whatever was called before, every later query on the same object must succeed and equal the oracle.
+    pre = spec.get("pre") or []
+    es = engine("shared-pre") if pre else None
+    if es is not None:
+        failed = None
+        with _Span(res, "shared-pre"):
+            for p in pre:
+                r = do_pre(ctx, es, p, states)
+                if ctx.failed(r):
+                    failed = (p["op"], r)
+                    break
+        if failed is not None:
+            # only successful calls form a history; the failing call itself is judged where it belongs
+            res.pre_raised = f"{failed[0]}: {failed[1]!r}"
+        else:
+            res.shared_ops = [p["op"] for p in pre]
+            fl = set(eflaw[id(es)]) | res.flawed.get("shared-pre", set())
+            for i, q in enumerate(qs[:3]):
+                label = f"shared{i}"
+                good = run_query(res, label, ctx, es, dict(q, virt=[]), nodes, J, states,
+                                 q["joint"] if i != 1 else not q["joint"], fl)
+                if label in res.problems:
+                    res.problems[label] = [(k, f"after {res.shared_ops} on the same engine: {w}", rv)
+                                           for (k, w, rv) in res.problems[label]]
+                fl |= res.flawed.get(label, set())
+                if not good:
+                    break                       # the engine's state after a failed query is not specified
     return res
 
 
@@ -996,6 +1096,12 @@ def run_case(spec, ctx):
         ctx.feature("evidence-in-several-cliques")
     if any(q["ev"] for q in spec["queries"]):
         ctx.feature("evidence")
+    if res.shared_ops:
+        ctx.feature("shared-engine-judged")
+        for op in res.shared_ops:
+            ctx.feature(f"pre:{op}")
+    if res.pre_raised:
+        ctx.note("shared_engine_precall_raised")
     for label, n in res.oks.items():
         if label not in res.problems:
             ctx.ok(n)
